@@ -437,6 +437,45 @@ theorem C13_float_array_text (tbl : List UnitRow) (k : Nat) (nm : Str) (a : Nat)
     (fun n x h => ⟨.inr rfl, hunit n x h⟩) hr hsh (rendered_float_plain fs (fun f hf => (hok f hf).1) hr) hds
     (C13_array_float_elements fs hok).2 hcd).2.2
 
+/-- **Ragged arrays are rejected.**  In `[item,…,item,BAD…` with `n ≥ 1` items of one common shape followed by an
+    item of a different shape (both rendered nested lists of any depth; what follows `BAD` is arbitrary text
+    starting with `,` `]` `[` or a blank, or nothing) `json.loads` + `np.array` fail, so `cast_value` fails for every
+    type and declared dimension, and the one-line program defining a parameter with that value does not parse. -/
+theorem C13_ragged_array_rejected (tbl : List UnitRow) (k : Nat) (nm : Str) (a : Nat) (ty : TyD) (dims : Option (List DimD))
+    (b c : Nat) (sh0 sh1 : List Nat) (pre : List (Str × List Tok)) (bad : Str × List Tok) (post : Str) (ds : List Dim)
+    (unit cm : Option (Nat × Str))
+    (hpre : pre ≠ []) (h0 : ∀ it ∈ pre, Rendered it.1 sh0 it.2) (h1 : Rendered bad.1 sh1 bad.2) (hne : sh1 ≠ sh0)
+    (hpost : post = [] ∨ ∃ ch r, post = ch :: r ∧ isDelim ch = true) :
+    let s := '[' :: (joinWith [','] (pre.map Prod.fst) ++ ',' :: (bad.1 ++ post))
+    parseJson s = .error .fail ∧
+    (∀ t : Ty, castText t (some ds) s = .error .fail) ∧
+    (NameOk nm → DimsOk dims → (∀ n x, unit = some (n, x) → UnitOk x) → NoEsc (renderTail unit cm) →
+      (∀ n x, unit = some (n, x) → (ty.ty = .int ∨ ty.ty = .float) ∧ tbl.any (fun r => r.name = x) = true) →
+      (∀ ch ∈ s, ch ≠ '#' ∧ isWs ch = false ∧ ch ≠ '\\' ∧ ch ≠ '$') → dimsValue dims = some ds →
+      parseLines (mkParams tbl)
+        [List.replicate k ' ' ++ (definePrefix nm a ty dims b c ++ (s ++ renderTail unit cm))] = .error .fail) := by
+  intro s
+  have hp : parseJson s = .error .fail := parseJson_ragged sh0 sh1 pre bad post hpre h0 h1 hne hpost
+  have hnone : (s == "none".toList) = false := ne_none_of_head _ (by simp [s])
+  have hc : ∀ t : Ty, castText t (some ds) s = .error .fail := by
+    intro t
+    simp only [castText, hnone, Bool.false_eq_true, if_false, hp, bind, Except.bind]
+  refine ⟨hp, hc, ?_⟩
+  intro hn hd hu htail hunit hplain hds
+  have hlit : Lit.Ok (.bare s) :=
+    ⟨⟨'[', _, rfl, by decide, by decide, by decide, by decide⟩, fun ch hch => ⟨(hplain ch hch).1, (hplain ch hch).2.1⟩⟩
+  have hdet := determine_define_bare k nm a ty dims b c s unit cm hn hd hu htail hlit
+    (fun ch hch => ⟨(hplain ch hch).2.2.1, (hplain ch hch).2.2.2⟩)
+  have hinit : initValue (mkParams tbl) ty.ty (some ds) (some (.text s)) = .error .fail := by
+    have he : s.isEmpty = false := rfl
+    simp only [initValue, he, Bool.false_and, Bool.false_eq_true, if_false, mkParams, hc, bind, Except.bind]
+  exact parseLines_single_define_error (mkParams tbl) _ _ ty.ty nm .fail hdet rfl rfl
+    (preCheck_blockNode tbl k nm ty dims s unit hunit) (by simpa only [blockNode, hds] using hinit)
+
+example : "[[1,2],[3]]".toList =
+    '[' :: (joinWith [','] ([("[1,2]".toList, [Tok.bare "1".toList, Tok.bare "2".toList])].map Prod.fst) ++
+      ',' :: (("[3]".toList, [Tok.bare "3".toList]).1 ++ "]".toList)) := by decide
+
 /-- **Escaped quotes.**  A definition whose double-quoted value is written with `\\"` for every quote
     character of the intended text `s` (`s` itself free of backslash, newline and `$`): the lexer marks
     the escapes (`$@01`), finds the closing quote, and hands back exactly `s` — the backslashes are gone,
